@@ -48,6 +48,19 @@ CHECKS = {
     note='Trusts z3, the ite encoding in engine/semz3.py, CPython evaluating Model.truth_function on each '
          'tuple, and spec/tables.py as the documented tables (diffed against the code at every run).',
     technique='SMT equivalence checking (z3) of extracted truth tables against a specification'),
+ 'C18': dict(
+    engine=E1, category='model_checking', design='6 C18',
+    text='The real qset, linqset and Predicates run under the proxy symbolic executor on every operation '
+         'sequence within the bound; value operands are z3 integers (membership/duplicate decisions are '
+         'solver-decided equalities, every aliasing pattern is a path), op codes and indexes are n-ary '
+         'symbolic picks; a list-without-duplicates model runs alongside and is compared after every '
+         'operation. Bounded model checking of the container state machine; exhaustive within the bound.',
+    note='Bound: symbolic initial content of 0..2 elements, then up to 2 (quick) / 3 (thorough) operations '
+         'from the full operation set, universe of 3 values; Predicates: update([p,q]) then up to 2/3 '
+         'operations over F/1, F/2, G/1, Identity. Trusts z3, the proxies (constant hash for symbolic ints), '
+         'and the reference model in checks/c18.py. Counterexamples are replayed concretely on the real '
+         'containers (recorded picks + witness values) in a fresh interpreter.',
+    technique='proxy-based symbolic execution (pysymex) with z3 path feasibility; bounded, exhaustive'),
 }
 
 NOT_YET = 'check not built yet in this round (work in progress; planned in DESIGN.md section 6)'
